@@ -38,6 +38,25 @@ fn restyle(text: &str, rng: &mut Rng, fault: bool) -> String {
     if crlf {
         out = out.replace("\r\n", "\n").replace('\n', "\r\n");
     }
+    // sometimes mixed line endings: each line break becomes LF, CRLF or (after `;` / `}`) a lone CR
+    if rng.chance(1, 5) {
+        let src = out.replace("\r\n", "\n");
+        let mut mixed = String::with_capacity(src.len() + 16);
+        let mut prev = ' ';
+        for ch in src.chars() {
+            if ch == '\n' {
+                match rng.below(if matches!(prev, ';' | '}') { 5 } else { 4 }) {
+                    0 | 1 => mixed.push('\n'),
+                    2 | 3 => mixed.push_str("\r\n"),
+                    _ => mixed.push('\r'),
+                }
+            } else {
+                mixed.push(ch);
+            }
+            prev = ch;
+        }
+        out = mixed;
+    }
     // now and then: a byte order mark at the start of the file (three bytes, one UTF-16 unit, in
     // front of everything), and comment lines holding characters that other tools treat as line
     // breaks (U+2028, U+0085, form feed) - none of them is a line break for LSP
@@ -133,7 +152,7 @@ impl Property for C09 {
         "C09"
     }
     fn rule(&self) -> String {
-        "SEM programs (root + headers, plus seeded semantic faults in every file so that included files carry diagnostics) written to a scratch directory with per-file line structure: 0..5 extra leading lines (blank / comment / non-ASCII comment / multi-line block comment), LF or CRLF, non-ASCII text inside strings, sometimes a byte order mark in front and comment lines with U+2028/U+0085/form feed. Real server: didOpen(root), then definition and references at every identifier of the root, documentSymbol, foldingRange, documentLink, inlayHint(whole file), and the published diagnostics of every file; then a didChange of the root to the same bytes with a different line structure (line breaks after ';' and '}' turned into spaces: byte offsets stay, lines and columns move), after which the diagnostics the client holds for every file and the documentSymbol answer are compared again; then the first header is opened too (it is the root of its own workspace: diagnostics and outline compared), the former root is touched again, and definition/references at up to 80 identifiers, documentSymbol and inlayHint of the now open *included* document are compared. Oracle: the ide-level result for the same files (separate AnalysisHost) converted with the reference position mapper against the text of the file each location names; URIs and ranges must match exactly (reference lists and diagnostics as multisets); independently of that oracle, every definition range, read in the text of the file it names, must spell the identifier asked about. distinct = (seed, n); non-trivial = a definition or reference in another file whose line differs from the same offset's line in the requesting file, or a root diagnostic that had to be re-published with moved lines after the relayout".into()
+        "SEM programs (root + headers, plus seeded semantic faults in every file so that included files carry diagnostics) written to a scratch directory with per-file line structure: 0..5 extra leading lines (blank / comment / non-ASCII comment / multi-line block comment), LF, CRLF or mixed line endings (LF / CRLF / lone CR per line), non-ASCII text inside strings, sometimes a byte order mark in front and comment lines with U+2028/U+0085/form feed. Real server: didOpen(root), then definition and references at every identifier of the root, documentSymbol, foldingRange, documentLink, inlayHint(whole file), and the published diagnostics of every file; then a didChange of the root to the same bytes with a different line structure (line breaks after ';' and '}' turned into spaces: byte offsets stay, lines and columns move), after which the diagnostics the client holds for every file and the documentSymbol answer are compared again; then the first header is opened too (it is the root of its own workspace: diagnostics and outline compared), the former root is touched again, and definition/references at up to 80 identifiers, documentSymbol and inlayHint of the now open *included* document are compared. Oracle: the ide-level result for the same files (separate AnalysisHost) converted with the reference position mapper against the text of the file each location names; URIs and ranges must match exactly (reference lists and diagnostics as multisets); independently of that oracle, every definition range, read in the text of the file it names, must spell the identifier asked about. distinct = (seed, n); non-trivial = a definition or reference in another file whose line differs from the same offset's line in the requesting file, or a root diagnostic that had to be re-published with moved lines after the relayout".into()
     }
     fn assumptions(&self) -> Vec<String> {
         vec!["the ide-level analysis of the same files is taken as 'the span the analysis computed' (its own correctness is C05/C17's business); 'idle' = all spawned tasks ended (verif hook counters)".into()]
